@@ -124,3 +124,20 @@ pub fn parse_file(file: &mut SliceFile, ast: &mut Ast, diagnostics: &mut Diagnos
 /// `HashSet::clone` (std): a set with the same elements
 pub assume_specification<T: Clone, S: Clone, A: std::alloc::Allocator + Clone>[<std::collections::HashSet<T, S, A> as Clone>::clone](s: &std::collections::HashSet<T, S, A>) -> (r: std::collections::HashSet<T, S, A>)
     ensures r@ == s@;
+
+// ---- validators/mod.rs validate_ast: its callees (trusted; C05 / C04 are about them) ----------------------------
+/// cycle_detection::detect_cycles (DFS over the pointer AST: outside this technique, C05): append-only
+#[verifier::external_body]
+pub fn detect_cycles(ast: &Ast, diagnostics: &mut Diagnostics)
+    ensures all_ok(old(diagnostics).0@) ==> all_ok(final(diagnostics).0@),
+{ unimplemented!() }
+/// identifiers::check_for_redefinitions: append-only
+#[verifier::external_body]
+pub fn check_for_redefinitions(ast: &Ast, diagnostics: &mut Diagnostics)
+    ensures all_ok(old(diagnostics).0@) ==> all_ok(final(diagnostics).0@),
+{ unimplemented!() }
+impl SliceFile {
+    /// visitor.rs SliceFile::visit_with (C20's unit verifies the traversal): here only "may be called"
+    #[verifier::external_body]
+    pub fn visit_with<V>(&self, visitor: &mut V) { unimplemented!() }
+}
